@@ -30,6 +30,7 @@ package zzvfbe
 import (
 	"bufio"
 	"context"
+	"errors"
 
 	"github.com/aws/aws-sdk-go-v2/service/s3"
 	"github.com/aws/aws-sdk-go-v2/service/s3/types"
@@ -53,15 +54,29 @@ type Recorder struct {
 type Call struct {
 	Method string
 	Args   []any
+	Failed bool // the call returned an error
 }
 
 func (r *Recorder) String() string { return "recorder" }
 func (r *Recorder) Shutdown()      {}
 
-func (r *Recorder) rec(m string, args ...any) {
+func (r *Recorder) rec(m string, args ...any) int {
 	r.Calls = append(r.Calls, Call{Method: m, Args: args})
 	zzvf.Trace("be." + m)
+	return len(r.Calls) - 1
 }
+
+func (r *Recorder) failed(i int, err error) error {
+	if err != nil {
+		r.Calls[i].Failed = true
+	}
+	return err
+}
+
+// FailKinds: 1 = API errors only, 2 = also raw (non-API) errors
+var FailKinds = 1
+
+var errRaw = errors.New("input/output error")
 
 // NoFail lists methods that never fail in the current harness (keeps path counts down).
 var NoFail = map[string]bool{}
@@ -71,8 +86,11 @@ func fail(m string) error {
 	if NoFail[m] {
 		return nil
 	}
-	if zzvf.Choice("be."+m+"$err", 2) == 1 {
+	switch zzvf.Choice("be."+m+"$err", 1+FailKinds) {
+	case 1:
 		return s3err.GetAPIError(s3err.ErrNoSuchKey)
+	case 2:
+		return errRaw // a non-API error (I/O fault and the like)
 	}
 	return nil
 }
@@ -101,20 +119,21 @@ for name,params,results in methods:
     rtypes=split_params(rs[1:-1]) if rs.startswith('(') else ([rs] if rs else [])
     out.append('func (r *Recorder) %s(%s) %s {'%(name,', '.join(plist),rs))
     rest=', '.join(argn[1:])
-    out.append('\tr.rec("%s"%s)'%(name, (', '+rest) if rest else ''))
+    out.append('\tci := r.rec("%s"%s)'%(name, (', '+rest) if rest else ''))
     args_lit='[]any{%s}'%rest
     if rtypes==['error']:
-        out.append('\tif h := Hooks["%s"]; h != nil {\n\t\t_, err := h(r, %s)\n\t\treturn err\n\t}'%(name,args_lit))
-        out.append('\treturn fail("%s")'%name)
+        out.append('\tif h := Hooks["%s"]; h != nil {\n\t\t_, err := h(r, %s)\n\t\treturn r.failed(ci, err)\n\t}'%(name,args_lit))
+        out.append('\treturn r.failed(ci, fail("%s"))'%name)
     elif len(rtypes)==2 and rtypes[1]=='error':
         out.append('\tvar out %s'%rtypes[0])
-        out.append('\tif h := Hooks["%s"]; h != nil {\n\t\tv, err := h(r, %s)\n\t\tif err != nil {\n\t\t\treturn out, err\n\t\t}\n\t\treturn v.(%s), nil\n\t}'%(name,args_lit,rtypes[0]))
-        out.append('\tif err := fail("%s"); err != nil {\n\t\treturn out, err\n\t}'%name)
+        out.append('\tif h := Hooks["%s"]; h != nil {\n\t\tv, err := h(r, %s)\n\t\tif err != nil {\n\t\t\treturn out, r.failed(ci, err)\n\t\t}\n\t\treturn v.(%s), nil\n\t}'%(name,args_lit,rtypes[0]))
+        out.append('\tif err := fail("%s"); err != nil {\n\t\treturn out, r.failed(ci, err)\n\t}'%name)
         out.append('\tzzvf.Havoc(&out, "be.%s")'%name)
         out.append('\treturn out, nil')
     else:
+        out.append('\t_ = ci')
         out.append('\tvar out %s'%rtypes[0])
         out.append('\treturn out')
     out.append('}\n')
-out.append('func (r *Recorder) SelectObjectContent(ctx context.Context, input *s3.SelectObjectContentInput) func(w *bufio.Writer) {\n\tr.rec("SelectObjectContent", input)\n\treturn func(w *bufio.Writer) {}\n}\n')
+out.append('func (r *Recorder) SelectObjectContent(ctx context.Context, input *s3.SelectObjectContentInput) func(w *bufio.Writer) {\n\t_ = r.rec("SelectObjectContent", input)\n\treturn func(w *bufio.Writer) {}\n}\n')
 open('/verif/harness/tree/internal/zzvfbe/recorder_gen.go','w').write('\n'.join(out))
